@@ -228,12 +228,77 @@ def merge_tables(a, b):
     return out
 
 
-RATES = [(1, u.Hz), (1, u.kHz), (7, u.Hz), (800 / 3, u.MHz), (32, u.MHz), (2, u.GHz), (0.5, u.Hz), (1, u.mHz), (10, u.Hz), (3, u.kHz)]
+# ------------------------------------------------------------------ memory layout / dtype of an argument, Dask chunkings
+LAYOUTS = ("C", "F", "T", "S")
+
+
+def relayout(a, mode):
+    """the same array (ndarray or Quantity) values in another memory layout: C-contiguous, Fortran order,
+    a transposed view, or a non-contiguous [::2] slice of a larger array"""
+    if getattr(a, "ndim", 0) == 0 or mode == "C":
+        return a
+    if mode in ("F", "T"):
+        b = a.T.copy().T                      # Fortran-ordered data, same shape and values
+        return b if mode == "F" else b.T.T    # T: reached through views
+    b = a
+    for ax in range(a.ndim):
+        b = np.repeat(b, 2, axis=ax)
+    return b[tuple(slice(None, None, 2) for _ in range(a.ndim))]
+
+
+SHIFT_DTYPES = ["float64", "float32", "float16", "int8", "int16", "int32", "int64", "uint8", "uint16", "uint32", "uint64"]
+
+
+def dtypes_for(values):
+    """NumPy dtypes that hold every value of the list exactly"""
+    out = []
+    for name in SHIFT_DTYPES:
+        d = np.dtype(name)
+        try:
+            with np.errstate(all="ignore"):
+                c = np.array(values, dtype=np.float64).astype(d)
+            if d.kind in "iu" and (min(values) < np.iinfo(d).min or max(values) > np.iinfo(d).max):
+                continue
+            if all(float(x) == float(v) for x, v in zip(c.ravel(), np.ravel(values))):
+                out.append(name)
+        except (OverflowError, ValueError):
+            pass
+    return out
+
+
+def int_scalar(v, pick):
+    """integer v as a Python int or a NumPy integer scalar of a width that holds it (pick selects)"""
+    names = ["int"] + [n for n in ("int8", "uint8", "int16", "uint16", "int32", "uint32", "int64", "uint64")
+                       if np.iinfo(n).min <= v <= np.iinfo(n).max]
+    name = names[pick % len(names)]
+    return (int(v) if name == "int" else np.dtype(name).type(v)), name
+
+
+def sample_chunks(shape, style):
+    """Dask chunks for data of the given shape: the time axis is one chunk (an FFT runs along it); sample axes
+    in single elements (style 0), whole (1) or UNEQUAL pieces (2: big piece first, 3: small piece first, 4: 2,2,1-like)"""
+    out = [(max(shape[0], 1),)]
+    for L in shape[1:]:
+        if style == 1 or L < 2:
+            out.append((L,))
+        elif style == 0 or L == 2:
+            out.append((1,) * L)
+        elif style == 2:
+            out.append((L - 1, 1))
+        elif style == 3:
+            out.append((1, L - 1))
+        else:
+            k = (L + 1) // 2
+            out.append(tuple(x for x in (k // 2 + k % 2, L - k, k // 2) if x) if L >= 4 else (2, 1))
+    return tuple(out)
+
+
+RATES = [(1, u.Hz), (1, u.kHz), (7, u.Hz), (800 / 3, u.MHz), (32, u.MHz), (2, u.GHz), (0.5, u.Hz), (1, u.mHz), (10, u.Hz), (3, u.kHz), (100, u.Hz)]
 
 
 def make_signal(data, cls, rate, start, dask, chunks=None):
     if dask:
-        data = da.from_array(data, chunks=chunks or ((max(len(data), 1),) + (1,) * (data.ndim - 1)))
+        data = da.from_array(data, chunks=(sample_chunks(data.shape, chunks) if isinstance(chunks, int) else chunks) or ((max(len(data), 1),) + (1,) * (data.ndim - 1)))
     kw = dict(sample_rate=rate[0] * rate[1], start_time=start, meta={"verif": [1, {"k": "v"}]})
     # every third signal gets its metadata by attribute assignment after construction with decoy values
     # (state cached across the public setters would then be stale)
